@@ -93,8 +93,14 @@ class FakeToken(object):
     def __init__(self, tr):
         self.tr = tr
 
+    fail_with = None            # fault at one point: the FIRST join is answered with an HTTP error by the session service
+
     def join(self, server_id):
         self.tr.ev.append(('join', server_id))
+        if self.fail_with is not None and sum(1 for e in self.tr.ev if e[0] == 'join') == 1:
+            from minecraft.exceptions import YggdrasilError
+            raise PyRaise(YggdrasilError(status_code=self.fail_with, yggdrasil_error='ServiceUnavailable',
+                                         yggdrasil_message='try again'))
 
 
 def make_login(I, tr, token=True, proto=757):
@@ -139,12 +145,27 @@ class EncStep(Unit):
         vt = SBytes([E.new_blob('verify_token')])
         pkt.server_id, pkt.public_key, pkt.verify_token = sid, pub, vt
         before_opts = dict(conn.options.__dict__)
+        fault = (None, 503, 403)[E.fork(3, 'session-service-answer')] if token else None
+        if fault is not None:
+            conn.auth_token.fail_with = fault
         try:
             I.call(I.getattr_(r, 'react'), pkt)
         except PyRaise as e:
-            E.check('enc.no-raise', False, note='%r' % (e.exc,))
-            return None
+            if fault is None:
+                E.check('enc.no-raise', False, note='%r' % (e.exc,))
+                return None
         ev = tr.ev
+        if fault is not None:
+            # whatever the client does about a failed join (give up, try again): EVERY request to the session service carries
+            # the hash of (server id, THE secret sent to the server, the packet's key) - C17's "the server hash sent ..."
+            # (seeded change C17-r10: the retry after a 503 sends the raw server id)
+            draws = [e for e in ev if e[0] == 'urandom']
+            for j in [e for e in ev if e[0] == 'join']:
+                a = j[1]
+                E.check('enc.join-argument-on-every-attempt', isinstance(a, tuple) and len(a) == 4 and a[0] == 'HASH' and a[1] is sid
+                        and len(draws) == 1 and _same(a[2], SBytes([draws[0][2]])) and _same(a[3], pub),
+                        note='join attempt after the service answered %d was given %r' % (fault, a if not isinstance(a, tuple) else a[0]))
+            return None
         draws = [e for e in ev if e[0] == 'urandom']
         E.check('enc.one-fresh-secret', len(draws) == 1 and draws[0][1] == 16, note='exactly one os.urandom(16) per encryption request')
         if len(draws) != 1:
@@ -273,6 +294,36 @@ def replay_login_live(label):
                 got = conn.file_object.read(41) + conn.socket.recv(100) + conn.file_object.read(59)
                 if got != plain:
                     bad = 'inbound stream read through file_object.read and socket.recv does not decrypt as one stream'
+    if bad is None:
+        # fault: the session service answers the first join with 503 (then 204).  Whether or not the client tries again,
+        # every attempt must carry the hash of (server id, the secret it goes on to send, the key)
+        from minecraft.exceptions import YggdrasilError
+        for status in (503, 502, 403):
+            attempts, sent2 = [], []
+
+            def join(h, attempts=attempts, status=status):
+                attempts.append(h)
+                if len(attempts) == 1:
+                    raise YggdrasilError(status_code=status, yggdrasil_error='E', yggdrasil_message='m')
+
+            class Sock2(object):
+                def send(self, d):
+                    sent2.append(bytes(d))
+            conn2 = native_connection()
+            conn2.context = ConnectionContext(protocol_version=757)
+            setattr(conn2, lock_name(), threading.RLock())
+            conn2.socket, conn2.file_object = Sock2(), types.SimpleNamespace()
+            conn2._outgoing_packet_queue = deque()
+            conn2.early_outgoing_packet_listeners, conn2.outgoing_packet_listeners = [], []
+            conn2.options = types.SimpleNamespace(compression_enabled=False, compression_threshold=-1)
+            conn2.auth_token = types.SimpleNamespace(join=join)
+            pkt2 = clientbound.login.EncryptionRequestPacket()
+            pkt2.server_id, pkt2.public_key, pkt2.verify_token = 'srv', der, b'\x01\x02\x03\x04'
+            k, v = native_call(LoginReactor(conn2).react, pkt2, timeout=20)
+            if len(set(attempts)) > 1 or any(not isinstance(h, str) or h == 'srv' for h in attempts):
+                bad = 'session service answered the first join with %d: the attempts carried %r (the raw server id is %r)' \
+                      % (status, attempts, 'srv')
+                break
     return dict(confirmed=bad is not None, n=1, call='LoginReactor.react(encryption request) with a real RSA-1024 key', observed=bad or 'conforms')
 
 
